@@ -49,7 +49,7 @@ var c19Seeds = []string{
 
 // directory trees that are not shaped like a CRS checkout (the -d argument points into them)
 var c19Shapes = []string{"assembly-dir-is-file-below-root", "assembly-dir-is-file", "assembly-dir-is-file-deeper", "assembly-dir-is-dangling-link", "assembly-dir-links-to-itself", "include-dir-is-file", "include-file-is-dir",
-	"assembly-file-is-dir", "assembly-file-links-to-itself", "configuration-is-dir", "directory-missing", "directory-is-file", "directory-empty-string", "rules-dir-is-file"}
+	"assembly-file-is-dir", "assembly-file-links-to-itself", "configuration-is-dir", "configuration-null-document", "configuration-null-scalar", "configuration-empty-mapping", "configuration-is-a-sequence", "configuration-binary", "directory-missing", "directory-is-file", "directory-empty-string", "rules-dir-is-file"}
 
 func c19Gen(r *rand.Rand) string {
 	var sb strings.Builder
@@ -167,6 +167,16 @@ func c19Check(env *core.Env, cc core.Case) core.Verdict {
 		case "configuration-is-dir":
 			delete(tree, "regex-assembly/toolchain.yaml")
 			tree["regex-assembly/toolchain.yaml/"] = ""
+		case "configuration-null-document":
+			tree["regex-assembly/toolchain.yaml"] = "---\n# patterns:\n#   anti_evasion:\n#     unix: x\n"
+		case "configuration-null-scalar":
+			tree["regex-assembly/toolchain.yaml"] = "~\n"
+		case "configuration-empty-mapping":
+			tree["regex-assembly/toolchain.yaml"] = "patterns:\n  anti_evasion: ~\n  anti_evasion_suffix:\n"
+		case "configuration-is-a-sequence":
+			tree["regex-assembly/toolchain.yaml"] = "- patterns\n- [1, 2]\n"
+		case "configuration-binary":
+			tree["regex-assembly/toolchain.yaml"] = "\x00\x01\xff\xfe: \x00\n"
 		case "directory-missing":
 			dirArg = root + "/no/such/dir"
 		case "directory-is-file":
